@@ -9,8 +9,8 @@ TIERS = {
 }
 
 DIRECTED = {
-    "quick": [("cache_triples", 100 + i) for i in range(24)] + [("option_alternation", 200 + i) for i in range(12)] + [("projection_alternation", 300 + i) for i in range(8)],
-    "thorough": [("cache_triples", 100 + i) for i in range(240)] + [("option_alternation", 200 + i) for i in range(120)] + [("projection_alternation", 300 + i) for i in range(60)],
+    "quick": [("cache_triples", 100 + i) for i in range(24)] + [("option_alternation", 200 + i) for i in range(12)] + [("projection_alternation", 300 + i) for i in range(8)] + [("basis_pair", 400 + i) for i in range(8)],
+    "thorough": [("cache_triples", 100 + i) for i in range(240)] + [("option_alternation", 200 + i) for i in range(120)] + [("projection_alternation", 300 + i) for i in range(60)] + [("basis_pair", 400 + i) for i in range(40)],
 }
 
 RULE = (
